@@ -71,7 +71,22 @@ def helpers(req):
     raise KeyError(k)
 
 
-HANDLERS = {"apply_both": apply_both, "create_both": create_both, "opcodes": opcodes, "helpers": helpers}
+def apply_mem(req):
+    """peak of the memory the pure-Python decoder allocates while it decodes (tracemalloc sees every chunk it slices out)"""
+    import tracemalloc
+    src, delta = unhx(req["src"]), unhx(req["delta"])
+    tracemalloc.start()
+    try:
+        tracemalloc.reset_peak()
+        before = tracemalloc.get_traced_memory()[0]
+        r = _apply(purepack.apply_delta, src, delta)
+        peak = tracemalloc.get_traced_memory()[1] - before
+    finally:
+        tracemalloc.stop()
+    return {"r": r["r"], "peak": peak}
+
+
+HANDLERS = {"apply_mem": apply_mem, "apply_both": apply_both, "create_both": create_both, "opcodes": opcodes, "helpers": helpers}
 
 
 def big_offset(req):
